@@ -128,7 +128,26 @@ def rule_s1(ctx):
         # bound under the parameter's name
         wires_root = {(r, tuple(p)) for (r, p) in body.trace_operand(wt["args"][0])}
         lets = [(b, t) for b, t in body.calls() if mir.callee(t) == C14.ENV_LET and {(r, tuple(p)) for (r, p) in body.trace_operand(t["args"][2])} == wires_root]
-        if lets and all(any(p[-1:] == ("name",) for (r, p) in body.trace_operand(t["args"][1])) for _, t in lets):
+        # or staged: (param.name, wires) pushed into a list, every item of which is bound later
+        staged = False
+        for pb, pt in body.calls():
+            if mir.last_seg(mir.callee(pt) or "") != "push" or len(pt["args"]) < 2 or pt["args"][1]["k"] not in ("copy", "move"):
+                continue
+            for (r, p) in body.trace_operand(pt["args"][1]):
+                if r[0] != "agg" or p:
+                    continue
+                ops = body.blocks[r[1]]["stmts"][r[2]]["rv"]["ops"]
+                if len(ops) == 2 and all(pp[-1:] == ("name",) for (_, pp) in body.trace_operand(ops[0])) and \
+                        {(rr, tuple(pp)) for (rr, pp) in body.trace_operand(ops[1])} == wires_root:
+                    lst = {rr for (rr, pp) in body.trace_operand(pt["args"][0]) if not pp}
+                    for lb, lt in body.calls():
+                        if mir.callee(lt) == C14.ENV_LET and lst and \
+                                {(rr, tuple(pp)) for (rr, pp) in body.trace_operand(lt["args"][1])} == {(x, ("[]", "0")) for x in lst} and \
+                                {(rr, tuple(pp)) for (rr, pp) in body.trace_operand(lt["args"][2])} == {(x, ("[]", "1")) for x in lst}:
+                            staged = True
+        if staged:
+            res.ok({"site": name, "verdict": "wires are listed with the parameter's name and every listed pair is bound (name, wires)"})
+        elif lets and all(any(p[-1:] == ("name",) for (r, p) in body.trace_operand(t["args"][1])) for _, t in lets):
             res.ok({"site": name, "verdict": "wires are bound under the parameter's name"})
         else:
             res.bad(Finding("S1", f["id"], "%s: wires are not bound under the parameter's name" % name, "the produced wires never reach let_in_current_scope(param.name, wires)", wt["sp"]))
